@@ -35,7 +35,7 @@ Next == /\ l <= NRec
              /\ PrintT(<<"VERDICT", l, IF j.ok THEN "ok" ELSE "MISMATCH", j.branch, Rec[l].tag, j.detail>>)
              /\ bad' = IF j.ok THEN bad ELSE bad \cup {l}
         /\ l' = l + 1
-        /\ (l < NRec \/ PrintT(<<"DONE", NRec, bad'>>))
+        /\ (IF l < NRec THEN TRUE ELSE PrintT(<<"DONE", NRec, bad'>>))
 Spec == Init /\ [][Next]_vars
 TraceAccepted == TLCGet("stats").diameter = NRec + 1
 =====================================================================
